@@ -13,10 +13,12 @@ Proof. exact static_requires. Qed.
 Print Assumptions C06_static_requires.
 
 (* A provider one of whose inputs comes from invoke or from a per-invocation provider listed
-   earlier is never hoisted. *)
-Theorem C06_tainted_never_hoisted : forall te d isLast nonStatic s,
-  char_one te d isLast nonStatic = Some s -> s_group s = GStatic ->
-  forall t, In t (fl (f_in (s_flows s))) -> memb t nonStatic = false.
+   earlier is never hoisted: none of its input types is non-static, and no interface input can be
+   satisfied, through a provider that is Loose for it, by a type that is non-static. *)
+Theorem C06_tainted_never_hoisted : forall te d isLast looseFor nonStatic s,
+  char_one te d isLast looseFor nonStatic = Some s -> s_group s = GStatic ->
+  forall t, In t (fl (f_in (s_flows s))) ->
+    memb t nonStatic = false /\ forall T, In (t, T) looseFor -> memb T nonStatic = false.
 Proof. exact taint_sound. Qed.
 Print Assumptions C06_tainted_never_hoisted.
 
